@@ -125,6 +125,23 @@ def atomicity_cases(rng, n):
                 vals = [rng.randrange(-9, 9)] * 12 if rng.random() < 0.6 else [rng.randrange(-99, 99) for _ in range(12)]
                 r = ('set', ('num', 0x99, 1, 1, None), list(struct.pack('<12i', *vals)))
                 sched.append((i % 3, 0, s, vals))
+            elif k < 0.34:
+                # a write that must be refused (values the tag's type cannot hold, or a range running off the end): it must not touch the
+                # backing list at all - a transient store that is rolled back is visible to the other sessions
+                if rng.random() < 0.6:
+                    r = ('writef', ('sym', 'T', s), 200, ln, 0, [('i', 7)] * (ln - 1) + [('i', 4000000000)])
+                else:
+                    r = ('writef', ('sym', 'T', 11), 196, 3, 0, [('i', 1), ('i', 2), ('i', 3)])
+                rec.log.clear()
+                b, d = im.request(r)
+                if b is not None and b[2] == 0:
+                    problems.append(dict(request=L.describe_req(r), problem='a write that must be refused was acknowledged'))
+                elif any(x[0] == 'set' for x in rec.log):
+                    problems.append(dict(request=L.describe_req(r), accesses=rec.log[:12],
+                                         problem='a refused write stored into the backing list (and took it back): other sessions can observe the transient values'))
+                if len(problems) >= 2:
+                    break
+                continue
             elif k < 0.6:
                 vals = [rng.randrange(-9, 9)] * ln if rng.random() < 0.6 else [rng.randrange(-99, 99) for _ in range(ln)]
                 r = ('writef', ('sym', 'T', s), 196, ln, 0, [('i', v) for v in vals])
